@@ -120,6 +120,17 @@ def health_part(v, tier, rng, wd, replay_sc=None):
     return states + tv.distinct, trans + tv.generated, judged, len(tl) - nrej
 
 
+def directed_collisions():
+    A = lambda c, *al: {"k": "apply", "c": c, "al": list(al)}
+    D = lambda c: {"k": "delete", "c": c, "al": []}
+    # directed: an update is refused because of a collision - then the cluster is deleted / the other one is / it is updated again
+    directed = [[A("a", "x"), A("b", "y"), A("a", "y"), D("a")], [A("a", "x"), A("b", "y"), A("a", "y"), D("b")], [A("a", "x"), A("b", "y"), A("a", "x", "y"), D("a")],
+                [A("a", "x"), A("b", "y"), A("a", "y"), A("a"), D("a")], [A("a", "x"), A("b"), A("b", "x"), D("b")], [A("a", "x"), A("b", "y"), A("a", "y"), A("b", "x"), D("a")],
+                [A("a", "x"), A("b", "y"), A("a", "y"), D("a"), A("c", "x")], [A("c", "y"), A("a", "x"), A("c", "x"), A("c"), D("a")],      # (the last one: the open finding StaleRequeue)
+                [A("a", "x", "y"), A("b"), A("b", "y"), A("a", "x"), D("b"), A("c", "y")]]
+    return directed
+
+
 def clean(x):
     """JSON null -> {'absent': true} (TLC has no null)"""
     if x is None:
@@ -192,13 +203,7 @@ def run(prop, tier, replay):
                 genc = vlib.tlc("dataplane", "NamesGen", "NamesGen.cfg", workers=1, timeout=900, simulate="num=%d" % (nco * 3), depth=40, tlc_seed=seed + 7, consts={"Admission": "FALSE", "MaxEvents": 6})
                 hc = list({vlib.canon(h): h for h in genc.json_prints("HIST")}.values())
                 rng.shuffle(hc)
-                A = lambda c, *al: {"k": "apply", "c": c, "al": list(al)}
-                D = lambda c: {"k": "delete", "c": c, "al": []}
-                # directed: an update is refused because of a collision - then the cluster is deleted / the other one is / it is updated again
-                directed = [[A("a", "x"), A("b", "y"), A("a", "y"), D("a")], [A("a", "x"), A("b", "y"), A("a", "y"), D("b")], [A("a", "x"), A("b", "y"), A("a", "x", "y"), D("a")],
-                            [A("a", "x"), A("b", "y"), A("a", "y"), A("a"), D("a")], [A("a", "x"), A("b"), A("b", "x"), D("b")], [A("a", "x"), A("b", "y"), A("a", "y"), A("b", "x"), D("a")],
-                            [A("a", "x"), A("b", "y"), A("a", "y"), D("a"), A("c", "x")], [A("c", "y"), A("a", "x"), A("c", "x"), A("c"), D("a")],      # (the last one: the open finding StaleRequeue)
-                            [A("a", "x", "y"), A("b"), A("b", "y"), A("a", "x"), D("b"), A("c", "y")]]
+                directed = directed_collisions()
                 for i, h in enumerate(directed + hc[:nco]):
                     sid = 300001 + i
                     scs.append(names_scenario(sid, h, rng, lag=False, collide=True))
@@ -228,6 +233,12 @@ def run(prop, tier, replay):
                     sid = 100001 + i
                     scs.append(names_scenario(sid, h, rng, lag=True))
                     kinds[str(sid)] = "lag"
+                # failed attempts: an update refused on a server-name collision, then the cluster / the other one is deleted or updated again; the
+                # histories end collision-free and are observed once everything (requeues included) has settled
+                for i, h in enumerate(directed_collisions()):
+                    sid = 150001 + i
+                    scs.append(names_scenario(sid, h, rng, lag=True))
+                    kinds[str(sid)] = "lag"
                 # deletions delivered as tombstones (the informer's watch is cut while the object is deleted), settled histories
                 gen3 = vlib.tlc("dataplane", "NamesGen", "NamesGen.cfg", workers=1, timeout=900, simulate="num=%d" % n, depth=40, tlc_seed=seed + 2, consts={"Tombstones": '"handled"'})
                 h3 = [h for h in {vlib.canon(h): h for h in gen3.json_prints("HIST")}.values() if any(e.get("tomb") for e in h)]
@@ -248,12 +259,14 @@ def run(prop, tier, replay):
             evs = []
             ever = {}
             vers = {}
+            verstls = {}
             nobs = sum(1 for e in t["events"] if e["k"] == "obs")
             for e in t["events"]:
                 if e["k"] == "apply":
                     o = e["obj"]
                     ever.setdefault(o["name"], set()).update([bm[o["name"]]] + [bm[a] for a in o["aliases"]])
                     vers.setdefault(o["name"], []).append(sorted(set([bm[o["name"]]] + [bm[a] for a in o["aliases"]])))
+                    verstls.setdefault(o["name"], []).append(o["tls"])
                 elif e["k"] == "delete":
                     ever[e["name"]] = set()
                 if e["k"] == "mid":
@@ -265,6 +278,7 @@ def run(prop, tier, replay):
                 ce = clean(e)
                 ce["ever"] = {c: sorted(ever.get(c, ())) for c in e["latest"]}
                 ce["vers"] = {c: list(vers.get(c, [])) for c in e["latest"]}
+                ce["verstls"] = {c: list(verstls.get(c, [])) for c in e["latest"]}
                 ce["settled"] = sum(1 for x in evs if x["k"] == "obs") == nobs - 1        # the last observation: 30 s after the last operation
                 evs.append(ce)
             kind = kinds.get(sid, "names")
